@@ -223,12 +223,27 @@ func templatesOf(c *Ctx, fl *FlowFn, rule string) []tplCase {
 			return v, v != ""
 		}
 	}
+	base.H.PreAssign = func(x *Exec, as *ast.AssignStmt, s St) St {
+		if as.Tok == token.ADD_ASSIGN {
+			for _, l := range as.Lhs {
+				if o := identObj(x.Fn.Info, l); o != nil && o.Type().String() == "string" {
+					s = s.Set("tplold:"+objID(o), s.Get("tpl:"+objID(o)))
+				}
+			}
+		}
+		return s
+	}
 	base.H.Assign = func(x *Exec, as *ast.AssignStmt, s St) []St {
 		if len(as.Lhs) == len(as.Rhs) {
 			for i, l := range as.Lhs {
 				if o := identObj(x.Fn.Info, l); o != nil && o.Type().String() == "string" {
 					withState(s)
-					s = s.Set("tpl:"+objID(o), env.eval(as.Rhs[i]))
+					v := env.eval(as.Rhs[i])
+					if as.Tok == token.ADD_ASSIGN {
+						// name += ".v1": the old value was saved before the assignment forgot it
+						v = s.Get("tplold:"+objID(o)) + v
+					}
+					s = s.Set("tpl:"+objID(o), v)
 				}
 			}
 		}
